@@ -389,19 +389,21 @@ def fused (ru : LiveRange.FuseRules) (g : Graph) (s : St) (d : FuseDesc) (o : Na
 
 /-- * every operator input that is not pass-internal is a pass input (`pack_into_passes`);
     * every tensor a pass reads has a producer, every producer is an earlier pass (execution order) that lists the
-      tensor in `ps.outputs`, and all producers lie in one subgraph; a tensor in `ps.outputs` has that pass in `ops`;
-    * the IFMs of the operator the decision is about are inputs of its pass. -/
+      tensor in `ps.outputs`; a tensor in `ps.outputs` has that pass in `ops`;
+    * the IFMs of the operator the decision is about are inputs of its pass; the subgraph outputs are tensors of the
+      description. -/
+def Graph.wfPass (g : Graph) (q : Nat) : Bool :=
+  let p := g.passAt q
+  p.reads.all (fun t => p.inputs.contains t) &&
+  p.reads.all (fun t => match g.tens[t]? with
+    | some d => !d.ops.isEmpty && d.ops.all (fun i => decide (i < q) && (g.passAt i).outputs.contains t)
+    | none => false) &&
+  p.outputs.all (fun t => match g.tens[t]? with | some d => d.ops.contains q | none => false) &&
+  (match p.ifm with | some t => p.reads.contains t | none => true) &&
+  (match p.ifm2 with | some t => p.reads.contains t | none => true)
+
 def Graph.wf (g : Graph) : Bool :=
-  (List.range g.passes.length).all fun q =>
-    let p := g.passAt q
-    p.reads.all (fun t => p.inputs.contains t) &&
-    p.reads.all (fun t => match g.tens[t]? with
-      | some d => !d.ops.isEmpty &&
-                  d.ops.all (fun i => decide (i < q) && (g.passAt i).outputs.contains t && g.sg i == g.sg (d.ops.headD 0))
-      | none => false) &&
-    p.outputs.all (fun t => match g.tens[t]? with | some d => d.ops.contains q | none => false) &&
-    (match p.ifm with | some t => p.reads.contains t | none => true) &&
-    (match p.ifm2 with | some t => p.reads.contains t | none => true)
+  (List.range g.passes.length).all g.wfPass && g.outputs.all fun t => decide (t < g.tens.length)
 
 /-- pass `q` of the description reads tensor `a` -/
 def Graph.readsAt (g : Graph) (q a : Nat) : Bool := (g.passAt q).reads.contains a
